@@ -55,90 +55,169 @@ def _inside(node, anc):
 
 
 def r1_leaves(program, rep):
+    """Which leaves a sink gets is decided case by case (endpoint constraint
+    / allocated cores / neither) on value terms: the code is analysed under
+    each case's hypotheses, helpers inlined, so the nesting of the tests and
+    the staging through helpers or comprehensions do not matter."""
     fn = program.get(NER + ":route")
     inst = qual(fn)
-    fl = Flow(fn)
-    cfg = fl.cfg
-    nl = [n for n in ast.walk(fn) if isinstance(n, ast.For) and
-          unparse(n.iter) == "nets"]
-    if len(nl) != 1:
-        raise AnalysisError("route: per-net loop")
-    net_loop = nl[0]
+    T = Terms(fn)
+    cfg = T.cfg
+    P = lambda n: ("param", n)      # noqa: E731
+    NET = ("elem", P("nets"))
+    SINKS = ("attr", NET, "sinks")
+    SINK = ("elem", SINKS)
     nn = calls_in(fn, "ner_net")
-    ok = len(nn) == 1 and [unparse(a) for a in nn[0].args] == [
-        "placements[net.source]",
-        "set((placements[sink] for sink in net.sinks))", "machine.width",
-        "machine.height", "wrap_around", "radius"]
+    ok = len(nn) == 1
+    if ok:
+        n = cfg.node_containing(nn[0])
+        b_ = {k: T.term(v, n) for k, v in bind(nn[0], program.get(
+            NER + ":ner_net")).items()}
+        dest = ("call", ("global", "set"),
+                (("genexp", ("item", P("placements"), SINK),
+                  ((SINKS, ()),)),), ())
+        wrap = plain(b_.get("wrap_around", ("?",)))
+        ok = b_.get("source") == ("item", P("placements"),
+                                  ("attr", NET, "source")) and \
+            plain(b_.get("destinations", ("?",))) in (
+                dest, ("call", ("global", "frozenset"), dest[2], ())) and \
+            b_.get("width") == ("attr", P("machine"), "width") and \
+            b_.get("height") == ("attr", P("machine"), "height") and \
+            wrap == ("call", ("attr", P("machine"),
+                              "has_wrap_around_links"), (), ()) and \
+            b_.get("radius") == P("radius")
     rep.check(ok, "C03-R1", inst, "the tree of a net is grown from the chip "
               "of its source to the chips of its sinks, on this machine's "
               "dimensions", construct="ner_net arguments", node=fn)
-    # root / lookup rebound together
-    pairs = []
-    for d in fl.defs:
-        if d.var in ("root", "lookup") and d.mode == "unpack":
-            pairs.append((d.var, d.node.id, unparse(d.value.func)))
-    by_node = {}
-    for v, nid, f in pairs:
-        by_node.setdefault(nid, set()).add(v)
-    ok = len(by_node) == 2 and all(s == {"root", "lookup"}
-                                   for s in by_node.values())
-    rep.check(ok, "C03-R1", inst, "root and lookup are always (re)bound "
-              "together from one call, so the lookup used for leaves "
-              "belongs to the tree returned", construct="root/lookup pair",
-              node=fn,
-              fail="root and lookup are not rebound together: leaves can be "
-                   "attached to nodes of a tree that is not the one "
-                   "returned")
-    sl = [n for n in ast.walk(net_loop) if isinstance(n, ast.For) and
-          unparse(n.iter) == "net.sinks"]
-    ok = len(sl) == 1
+    # the tree node a sink's leaves hang on; root and lookup of one tree
+    leaves = []
+    for c in ast.walk(fn):
+        if isinstance(c, ast.Call) and isinstance(c.func, ast.Attribute) \
+                and c.func.attr in ("append", "extend") and \
+                isinstance(c.func.value, ast.Attribute) and \
+                c.func.value.attr == "children" and len(c.args) == 1:
+            leaves.append(c)
+    if not leaves:
+        raise AnalysisError("route: no leaves are attached")
+    n0 = cfg.node_containing(leaves[0])
+    TN = T.term(leaves[0].func.value.value, n0)
+    ok = TN[0] == "item" and TN[2] == ("item", P("placements"), SINK)
+    LOOKUP = TN[1] if ok else None
+    roots = []
+    for x in stores(T):
+        if x[3] == NET and x[2][0] == "new":
+            roots.append(x)
+    rets = [T.term(r.value) for r in returns_of(fn) if r.value is not None]
+    ok = ok and len(roots) == 1 and rets == [roots[0][2]]
     if ok:
-        tn = [d for d in fl.defs if d.var == "tree_node"]
-        ok = len(tn) == 1 and unparse(tn[0].value) == \
-            "lookup[placements[sink]]" and _inside(tn[0].node.ast, sl[0])
+        la = [plain(x) for x in alternatives(LOOKUP)]
+        ra = [plain(x) for x in alternatives(roots[0][4])]
+        ok = all(x[0] == "comp" and x[2] == 1 for x in la) and \
+            sorted(x[1] for x in la) == sorted(
+                x[1] for x in ra if x[0] == "comp" and x[2] == 0) and \
+            len(la) == len(ra)
     rep.check(ok, "C03-R1", inst, "each sink's leaf hangs on the tree node "
-              "of the chip the sink was placed on",
-              construct="leaf node lookup", node=fn)
-    aps = [c for c in calls_in(fn, "append")
-           if unparse(call_name(c)[1]) == "tree_node.children"]
-    forms = {}
-    for c in aps:
-        f = fl.facts(cfg.node_containing(c))
-        key = tuple(sorted((unparse(x), p) for x, p, _ in f
-                           if "route_to_endpoint" in unparse(x) or
-                           "cores" in unparse(x)))
-        forms[key] = unparse(c.args[0])
-    ok = forms.get((("sink in route_to_endpoint", True),)) == \
-        "(route_to_endpoint[sink], sink)" and \
-        forms.get((("cores is not None", True),
-                   ("sink in route_to_endpoint", False))) == \
-        "(Routes.core(core), sink)" and \
-        forms.get((("cores is not None", False),
-                   ("sink in route_to_endpoint", False))) == "(None, sink)"
-    rep.check(ok, "C03-R1", inst, "leaf route = the endpoint constraint's "
-              "route if there is one, else one core route per allocated "
-              "core, else none", construct="leaf routes %s" % sorted(
-                  forms.values()), node=fn)
-    cl = [n for n in ast.walk(net_loop) if isinstance(n, ast.For) and
-          unparse(n.iter) == "range(cores.start, cores.stop)"]
-    cd = [d for d in fl.defs if d.var == "cores"]
-    ok = len(cl) == 1 and len(cd) == 1 and unparse(cd[0].value) == \
-        "allocations.get(sink, {}).get(core_resource, None)"
-    rep.check(ok, "C03-R1", inst, "core routes cover exactly [cores.start, "
-              "cores.stop) of the sink's own allocation",
-              construct="core range", node=fn)
-    st = [s for s in ast.walk(net_loop) if isinstance(s, ast.Assign) and
-          unparse(s.targets[0]) == "routes[net]"]
-    ok = len(st) == 1 and unparse(st[0].value) == "root"
-    rets = returns_of(fn)
-    ok = ok and len(rets) == 1 and unparse(rets[0].value) == "routes"
-    ep = [s for s in ast.walk(fn) if isinstance(s, ast.Assign) and
-          unparse(s.targets[0]) == "route_to_endpoint[constraint.vertex]"]
-    ok = ok and len(ep) == 1 and unparse(ep[0].value) == "constraint.route"
-    rep.check(ok, "C03-R1", inst, "routes[net] is that net's root; endpoint "
-              "routes come from the vertex's RouteEndpointConstraint",
-              construct="result map", node=fn)
-    rep.floor("C03-R1", 6)
+              "of the chip the sink was placed on, in the lookup that "
+              "belongs to the tree stored for the net (root and lookup "
+              "always come from one call)", construct="leaf node lookup",
+              node=fn,
+              fail="leaves are not attached to lookup[placements[sink]] of "
+                   "the very tree stored in routes[net]: root and lookup "
+                   "are not (re)bound together, or another node is used")
+    # the three cases
+    RTE = CORES = None
+    for view_c in ast.walk(fn):
+        if isinstance(view_c, ast.Call) and \
+                isinstance(view_c.func, ast.Name) and \
+                view_c.func.id == "range" and len(view_c.args) == 2:
+            for view in owner_views(T, view_c):
+                vn = view.cfg.node_containing(view_c)
+                env = _comp_env(getattr(view, "t", view), view_c)
+                lo = view.term(view_c.args[0], vn, env)
+                hi = view.term(view_c.args[1], vn, env)
+                if lo[0] == "attr" and lo[2] == "start" and \
+                        hi == ("attr", lo[1], "stop"):
+                    CORES = lo[1]
+    for c in ast.walk(fn):
+        if isinstance(c, ast.Compare) and len(c.ops) == 1 and \
+                isinstance(c.ops[0], (ast.In, ast.NotIn)):
+            for view in owner_views(T, c):
+                vn = view.cfg.node_containing(c)
+                t, _ = view.cond(c, vn)
+                if t[0] == "cmp" and t[1] == "In" and t[2] == SINK:
+                    RTE = t[3]
+    okc = RTE is not None and CORES is not None
+    detail = []
+    if okc:
+        want_cores = ("get", ("get", P("allocations"), SINK, ANY),
+                      P("core_resource"), ("const", None))
+        okc = match(want_cores, plain(CORES)) is not None
+        cases = [
+            ("endpoint", [(mk_cmp("In", SINK, RTE), True)],
+             [("tuple", ("item", RTE, SINK), SINK)]),
+            ("cores", [(mk_cmp("In", SINK, RTE), False),
+                       (is_none(CORES), False)],
+             [("tuple", ("call", ("attr", ("global", "Routes"), "core"),
+                         (("elem", ("call", ("global", "range"),
+                                    (("attr", CORES, "start"),
+                                     ("attr", CORES, "stop")), ())),), ()),
+               SINK)]),
+            ("none", [(mk_cmp("In", SINK, RTE), False),
+                      (is_none(CORES), True)],
+             [("tuple", ("const", None), SINK)]),
+        ]
+        for name, hyps, want in cases:
+            H = T.under(*hyps)
+            got = []
+            for c in leaves:
+                owner = c
+                while owner is not None and not isinstance(
+                        owner, (ast.FunctionDef, ast.AsyncFunctionDef)):
+                    owner = owner._parent
+                if owner is not fn:
+                    got.append(("?",))
+                    continue
+                n = cfg.node_containing(c)
+                if not H.live(n):
+                    continue
+                arg = H.term(c.args[0], n)
+                if c.func.attr == "extend":
+                    built = H.filtered(arg)
+                    if not built or len(built) != 1 or built[0][2]:
+                        got.append(("?",))
+                        continue
+                    arg = built[0][1]
+                got.append(arg)
+            detail.append("%s: %s" % (name, ", ".join(show(x)[:80]
+                                                        for x in got)))
+            okc = okc and got == want
+    rep.check(okc, "C03-R1", inst, "leaf route = the endpoint constraint's "
+              "route if there is one, else one core route per core in "
+              "[start, stop) of the sink's own allocation, else none",
+              construct="leaf routes", node=fn,
+              fail="the leaves attached for a sink are not: the endpoint "
+                   "route if constrained, else Routes.core(c) for every c "
+                   "of its allocated slice, else None (found: %s)" %
+                   "; ".join(detail))
+    # endpoint routes come from the vertex's RouteEndpointConstraint
+    oke = False
+    if RTE is not None:
+        CON = ("elem", P("constraints"))
+        isre = ("call", ("global", "isinstance"),
+                (CON, ("global", "RouteEndpointConstraint")), ())
+        pr = plain(RTE)
+        if pr[0] == "dictcomp":
+            oke = pr == ("dictcomp", ("pair", ("attr", CON, "vertex"),
+                                      ("attr", CON, "route")),
+                         ((P("constraints"), (isre,)),))
+        else:
+            ep = [x for x in stores(T) if x[2] == RTE]
+            oke = len(ep) == 1 and ep[0][3] == ("attr", CON, "vertex") and \
+                ep[0][4] == ("attr", CON, "route") and \
+                (isre, True) in T.all_facts(ep[0][0])
+    rep.check(oke, "C03-R1", inst, "endpoint routes come from the vertex's "
+              "RouteEndpointConstraint", construct="result map", node=fn)
+    rep.floor("C03-R1", 4)
 
 
 def r2_repair(program, rep):
